@@ -204,7 +204,7 @@ class Actor(object):
         self.raiser = raiser  # callable(exc) that raises exc from somewhere else (simulated file, exec)
 
     def handle(self, args, io, command):
-        rec = {"hid": self.hid, "command": command.full_name,
+        rec = {"hid": self.hid, "command": command.full_name if command is not None else None,
                "arguments": dict(args.arguments(False)), "options": dict(args.options(False)),
                "quiet": io.is_quiet(), "verbosity": io.verbosity, "interactive": io.is_interactive(),
                "answers": []}
@@ -294,7 +294,7 @@ class ActorHandler(object):
         return None if r is _NOTHING else r
 
 
-def build_app(spec, scripts, log, listeners=(), raiser=None, config_hook=None):
+def build_app(spec, scripts, log, listeners=(), raiser=None, config_hook=None, handler_kinds=None):
     """Real ConsoleApplication from a spec.  ``scripts``: hid -> step list (default: return None)."""
     from clikit import ConsoleApplication
     from clikit.args import DefaultArgsParser
@@ -323,7 +323,20 @@ def build_app(spec, scripts, log, listeners=(), raiser=None, config_hook=None):
             cc.disable_lenient_args_parsing()
         if shared is not None:
             cc.set_args_parser(shared)
-        cc.set_handler(ActorHandler(Actor(cmd["hid"], scripts.get(str(cmd["hid"]), scripts.get(cmd["hid"], [])), log, raiser)))
+        ah = ActorHandler(Actor(cmd["hid"], scripts.get(str(cmd["hid"]), scripts.get(cmd["hid"], [])), log, raiser))
+        hk = (handler_kinds or {}).get(cmd["hid"], "object")
+        if hk == "callback":
+            from clikit.handler.callback_handler import CallbackHandler
+            cc.set_handler(CallbackHandler(lambda args, io, _ah=ah: _ah.handle(args, io, None)))
+        elif hk == "callback_var":
+            from clikit.handler.callback_handler import CallbackHandler
+
+            def cb(*params, **kw):
+                return cb.ah.handle(params[0], params[1], params[2] if len(params) > 2 else None)
+            cb.ah = ah
+            cc.set_handler(CallbackHandler(cb))
+        else:
+            cc.set_handler(ah)
         for s in cmd["subs"]:
             add(cc, s)
 
